@@ -510,7 +510,9 @@ func (fid *SrvFid) DecRef() {
 	n := fid.refcount
 	fid.Unlock()
 
-	if n > 0 {
+	if n != 0 {
+		/* still referenced, or already destroyed (a clunk or remove that was
+		   executing while its connection closed drops the table's reference twice) */
 		return
 	}
 
